@@ -1180,6 +1180,12 @@ class Interp:
                     # mark as unknown so that a use would be reported
                     new_heap[o] = Unknown(None, 'merged reference temporary')
                     continue
+                dead_ = lambda v: v is None or (isinstance(v, Unknown) and str(getattr(v, 'why', '')).startswith(('temporary assigned on one arm', 'merged reference temporary')))
+                if any(dead_(v) for v in vals) and not any(isinstance(v, (Buf, Ptr, Slice, Opaque, FnVal)) or (isinstance(v, Unknown) and not dead_(v)) for v in vals):
+                    # a temporary assigned on one arm only (e.g. the operand of that arm's bounds check) and uninitialised
+                    # on the other: MIR assigns temporaries before every use, so it is dead at the join; a use would be reported
+                    new_heap[o] = Unknown(None, 'temporary assigned on one arm only')
+                    continue
                 return None
             mv = merge_by_conditions(list(zip(conds, vals)))
             if mv is None:
@@ -1266,6 +1272,7 @@ class Interp:
         if dec is False:
             raise PathEnd('assert')
         st.assume(c)
+        st.nopanic = st.nopanic | frozenset((c.id,))          # the failure of c panics: c is an assertion, not a branch condition
 
     def do_call(self, st, fr, t):
         args = [self.operand(st, fr, a) for a in t['args']]
